@@ -67,8 +67,9 @@ func (ro *round) nodeHistory(h string) []string {
 }
 
 type request struct {
-	kind string
-	root string
+	kind      string
+	root      string
+	commitsAt int // number of commits done when the request had finished (upper bound of what it could see as dirty)
 }
 
 // knownCheckpointShape is the witness class of the checkpoint defect found by this monitor: a node hash that was
@@ -77,8 +78,10 @@ type request struct {
 const knownCheckpointShape = "checkpoint shape=hash-revisited-after-earlier-checkpoint+snapshot-rotation"
 
 // classify decides the key of an incomplete checkpoint from the recorded history: the known shape applies only
-// when EVERY node missing from the snapshot DB (a) belongs to the state of a checkpoint executed before the last
-// snapshot and (b) does not belong to the state of that snapshot.
+// when EVERY node missing from the snapshot DB (a) belongs to the state of a checkpoint A executed before the last
+// snapshot, (b) had been created anew by a block committed after A's block and before A's checkpoint finished (so
+// it was dirty in a later block's entry while A visited it), and (c) does not belong to the state of that last
+// snapshot (the rotation into a new DB that does not hold the node).
 func (ro *round) classify(model *cm.Block, sdb data.DBWriteCacher) (bool, int) {
 	ro.firstMissing = ""
 	want := ro.nodes[string(model.Root)]
@@ -114,8 +117,24 @@ func (ro *round) classify(model *cm.Block, sdb data.DBWriteCacher) (bool, int) {
 			if q.kind != "checkpoint" {
 				continue
 			}
-			if _, ok := ro.nodes[q.root][h]; ok {
-				earlier = true
+			if _, ok := ro.nodes[q.root][h]; !ok {
+				continue
+			}
+			blockIdx := -1
+			for i, cr := range ro.commits {
+				if cr.root == q.root {
+					blockIdx = i
+				}
+			}
+			for i := blockIdx + 1; i < q.commitsAt && i < len(ro.commits); i++ {
+				_, in := ro.nodes[ro.commits[i].root][h]
+				_, inParent := ro.nodes[ro.commits[i].parent][h]
+				if in && !inParent {
+					earlier = true
+					break
+				}
+			}
+			if earlier {
 				break
 			}
 		}
@@ -290,7 +309,7 @@ func (ro *round) window(profile string) {
 		return
 	}
 	if !verifiable {
-		ro.executed = append(ro.executed, request{kind, string(model.Root)})
+		ro.executed = append(ro.executed, request{kind, string(model.Root), len(ro.commits)})
 		return
 	}
 
@@ -302,7 +321,7 @@ func (ro *round) window(profile string) {
 		r.Shape(sig)
 	}
 	key, what, extra := ro.verify(kind, model)
-	ro.executed = append(ro.executed, request{kind, string(model.Root)})
+	ro.executed = append(ro.executed, request{kind, string(model.Root), len(ro.commits)})
 	if key == "" {
 		if r.NeedSample() && ro.c.Idx < 3 && overlapped > 0 {
 			n := len(ro.ops)
@@ -436,7 +455,7 @@ func runDirected(r *vk.Run, c *vk.Case, variant int) {
 		r.Eval(1)
 		r.Count("directed_witness_requests", 1)
 		key, what, extra := ro.verify(kind, model)
-		ro.executed = append(ro.executed, request{kind, string(model.Root)})
+		ro.executed = append(ro.executed, request{kind, string(model.Root), len(ro.commits)})
 		if key != "" {
 			extra["directed_witness"] = variant
 			r.Violation(c.Idx, key, fmt.Sprintf("directed witness #%d: %s", variant, what), ro.detail(extra))
@@ -455,8 +474,16 @@ func runRound(r *vk.Run, c *vk.Case, scratch string) {
 		CheckpointModulus: uint(rng.Range(2, 4)),
 		MaxSnapshots:      uint32(rng.Range(2, 3)),
 	}
+	// round types: 3 of 4 cannot contain the known checkpoint shape at all
+	rtype := []string{"mixed", "snapshots-only", "checkpoints-only", "mixed-monotone"}[c.Idx%4]
+	switch rtype {
+	case "snapshots-only":
+		cfg.CheckpointModulus = 0 // no checkpoint ever
+	case "checkpoints-only":
+		cfg.CheckpointModulus = 1 // every finalization is a checkpoint: no snapshot, hence no rotation
+	}
 	dbKind := "MemoryDB"
-	if !r.Quick() && c.Idx%2 == 1 {
+	if !r.Quick() && (c.Idx/4)%2 == 1 {
 		dbKind = "LvlDBSerial"
 		dir := filepath.Join(scratch, fmt.Sprintf("c10-snap-%d-%d", r.Seed, c.Idx))
 		_ = os.MkdirAll(dir, 0o755)
@@ -464,7 +491,7 @@ func runRound(r *vk.Run, c *vk.Case, scratch string) {
 		cfg.SnapshotDB = config.DBConfig{FilePath: dir, Type: "LvlDBSerial", BatchDelaySeconds: 1, MaxBatchSize: 7, MaxOpenFiles: 10}
 	}
 	profile := "hold"
-	if c.Idx%3 == 2 {
+	if (c.Idx/4)%3 == 2 {
 		profile = "slow"
 	}
 	env, err := cm.NewEnv(cfg)
@@ -480,6 +507,8 @@ func runRound(r *vk.Run, c *vk.Case, scratch string) {
 		}
 	}
 	env.Rec.OnCheckpoint = func(root []byte) { ro.ckptReq = root }
+	ro.w.Monotone = rtype == "mixed-monotone"
+	r.Count("rounds_type_"+rtype, 1)
 	b0, err := ro.w.Commit(rng, true, nil)
 	if err != nil {
 		r.Inconclusive("genesis commit failed: " + err.Error())
@@ -518,7 +547,7 @@ func runRound(r *vk.Run, c *vk.Case, scratch string) {
 func main() {
 	_ = logger.SetLogLevel("*:NONE")
 	r := vk.Start("C10")
-	r.Rule("each case is one round: a chain over 6 accounts + counter account (storage, code, removals) with 12 request windows. A window takes the block that becomes final next, issues exactly one request for its root the way the block processors do (explicit SnapshotState before updateStateStorage, or the checkpoint that updateStateStorage itself fires when height % CheckpointRoundsModulus == 0), then a mutator goroutine runs 0-5 further chain steps (commit / finalize with prune requests / rollback above the final block) concurrently with the snapshot goroutines, whose main-DB reads are held on logical tokens released per step (2/3 of the rounds) or slowed (1/3); then the harness waits for IsPruningBlocked()==false and verifies. One request outstanding at a time, final roots only, SnapshotsBufferLen 10000, MaxSnapshots 2-3. A window is non-trivial when the state has at least one data trie; distinct = distinct (kind, gate, steps, overlapped, rollback-in-window, prunes-buffered-in-window, #data tries, queue size) tuples.")
+	r.Rule("each case is one round: a chain over 6 accounts + counter account (storage, code, removals) with 12 request windows. A window takes the block that becomes final next, issues exactly one request for its root the way the block processors do (explicit SnapshotState before updateStateStorage, or the checkpoint that updateStateStorage itself fires when height % CheckpointRoundsModulus == 0), then a mutator goroutine runs 0-5 further chain steps (commit / finalize with prune requests / rollback above the final block) concurrently with the snapshot goroutines, whose main-DB reads are held on logical tokens released per step (2/3 of the rounds) or slowed (1/3); then the harness waits for IsPruningBlocked()==false and verifies. One request outstanding at a time, final roots only, SnapshotsBufferLen 10000, MaxSnapshots 2-3. Round types by case index mod 4: mixed (snapshots + modulus checkpoints) / snapshots only / checkpoints only (modulus 1, no rotation) / mixed with monotone state (no node-hash revisit: unique slot values, no removals, code fixed after block 0) - only the first type can contain the known checkpoint shape. Two extra fixed cases replay the minimal sequential witnesses of that shape. A window is non-trivial when the state has at least one data trie; distinct = distinct (kind, gate, steps, overlapped, rollback-in-window, prunes-buffered-in-window, #data tries, queue size) tuples.")
 	r.Assume(
 		"requests never overlap and are issued only for roots of blocks that have just become final (DESIGN C10 restrictions); overlapping requests are outside the property",
 		"a request whose root is already incomplete in the main DB at request time is not verified (pruning defects are C09's subject) and only counted",
